@@ -32,20 +32,20 @@ Theorem replay_kills_family cfg cls h1 c cl code redirect v vh k r h2 i e tamper
   let res := redeem cfg s1 (Some c) code redirect v vh in
   o_err (snd res) = "invalid_grant" /\ o_minted (snd res) = [] /\
   (let s2 := run cfg (fst res) h2 in
-   nth_error (log s2) i = Some e -> i_rid e = r_id r ->
+   nth_error (log s2) i = Some e -> i_rid e = r_id r -> i_kind e <> KImplicit ->
    introspect cfg s2 {| p_ref := CRef i; p_tampered := tampered |} hint scopes = None).
 Proof.
   intros s1 Hc Hg Hk Hcode res.
   assert (I1 : Inv s1) by apply Inv_reachable.
   destruct (replay_kills cfg s1 c cl code redirect v vh k r I1 Hc Hg Hk Hcode) as [He [Hm Hd]].
   split; [exact He|split; [exact Hm|]].
-  intros s2 Hn Hrid.
+  intros s2 Hn Hrid Hkind.
   assert (I2 : Inv (fst res)).
   { unfold res. rewrite (redeem_is_step _ _ _ _ _ _ _ []). now apply Inv_step. }
   assert (Hlt : r_id r < next_rid (fst res)).
   { pose proof (next_rid_step cfg s1 (ORedeem (Some c) code redirect v vh [])) as Hm'.
     cbn [step] in Hm'. pose proof (proj2 (inv_code_fresh s1 _ _ _ I1 Hcode)). unfold res. lia. }
-  eapply dead_credential_inactive; [apply Inv_run; exact I2|apply dead_run; [exact Hd|exact Hlt]|exact Hn|exact Hrid].
+  eapply dead_credential_inactive; [apply Inv_run; exact I2|apply dead_run; [exact Hd|exact Hlt]|exact Hn|exact Hrid|exact Hkind].
 Qed.
 
 Theorem replay_spares_other_grants cfg cls h1 c cl code redirect v vh k r i e tampered hint scopes :
@@ -66,7 +66,7 @@ Definition ex_cfg : config :=
 Definition ex_client : client :=
   {| cl_public := false; cl_grants := ["authorization_code"; "refresh_token"]; cl_scopes := ["offline"; "photos"]; cl_aud := [] |}.
 Definition ex_authz : authz :=
-  {| az_client := 0; az_redirect := ""; az_scopes := ["offline"; "photos"]; az_granted := ["offline"; "photos"];
+  {| az_rtype := RCode; az_client := 0; az_redirect := ""; az_scopes := ["offline"; "photos"]; az_granted := ["offline"; "photos"];
      az_aud := []; az_gaud := []; az_subject := "alice"; az_challenge := ""; az_method := "" |}.
 Definition cr i := {| p_ref := CRef i; p_tampered := false |}.
 Definition ex_history : list op :=
